@@ -1359,7 +1359,12 @@ def r4(run: Run, src):
         run.errors.append(f'C12.R4 <- {e}')
     if n == 0:
         raise AnalysisError('C12.R4', 'Excel.get_similar_second was not analysed')
-    _similar_second_linear(run, src)
+    from . import c02 as _c02s
+    try:
+        _c02s.similar_eval(run, 'C12.R4', src)
+    except AnalysisError as e_:
+        run.note(f'C12.R4: the SUMIF target as a linear expression ({e_.reason[:100]})')
+        _similar_second_linear(run, src)
 
 
 def _similar_second_linear(run: Run, src):
